@@ -272,7 +272,7 @@ def keyed(nodes):
 FAM_ATTR = "[item 15a] a prefix used only by an attribute is never declared (start_elem registers attribute names after the declarations were written) — "
 FAM_DEFAULT = "[item 15b] un-declaration of the default namespace (xmlns=\"\") is never emitted — "
 FAM_SIBLING = "[item 15d] end_elem registers the closed element's binding in the PARENT's map: a following sibling gets no declaration — "
-FAM_CR = "[item 15c] U+000D is written raw and comes back as U+000A — "
+FAM_CR = "[item 15c] U+000D is written raw and comes back as U+000A (or is lost after a reference) — "
 FAM_URI = "[item 15e] namespace URI written unescaped — "
 FAM_ITEM14 = "[item 14] the re-parse drops an attribute whose raw name equals the local part of an earlier attribute or declaration — "
 FAM_OTHER = "[round trip] "
@@ -298,7 +298,7 @@ def all_text(nodes):
 
 
 def family(tree):
-    if any("\r" in s and not isattr for s, isattr in all_text(tree)):
+    if any("\r" in s for s, isattr in all_text(tree)):
         return FAM_CR
     for e, anc in walk(tree):
         if any(c in e.ns for c in "\"&<\r") or any(any(c in an[1] for c in "\"&<\r") for an, _ in e.attrs):
@@ -366,15 +366,27 @@ def nontrivial(line, out):
     return out is not None and "ser=3c" in out
 
 
+NAME_OK = set("abcdefghijklmnopqrstuvwxyz0123456789")
+
+
 def lex_safe(line):
-    """may the model's assumed lexing be compared with the real re-parse?  not when a namespace URI contains
-    characters the serializer writes raw and the tokenizer treats specially"""
+    """may the model's assumed lexing be compared with the real re-parse?  Not when a namespace URI contains
+    characters the serializer writes raw and the tokenizer treats specially, when a name is not a plain name, when
+    there is text outside the root, or when a CR occurs (the pinned tokenizer drops a CR that follows a character
+    reference — DESIGN 1.3 item 13, xmltok's subject)"""
     f = line.split("\t")
     if f[1] != "tree":
         return False
-    for e, _ in walk(X.parse_dump(f[2])):
-        for ns in [e.ns] + [an[1] for an, _ in e.attrs]:
+    tree = X.parse_dump(f[2])
+    if any(not isinstance(n, X.Elem) and n[0] == "t" for n in tree):
+        return False
+    if any("\r" in s for s, _ in all_text(tree)):
+        return False
+    for e, _ in walk(tree):
+        for p, ns, l in [(e.prefix, e.ns, e.local)] + [an for an, _ in e.attrs]:
             if any(c in ns for c in "\"&<\r\n\t "):
+                return False
+            if not l or not set(l) <= NAME_OK or (p is not None and (not p or not set(p) <= NAME_OK)):
                 return False
     return True
 
